@@ -412,6 +412,7 @@ impl<'a> CompilerState<'a> {
         &self,
         pairs: Pairs<'a, Rule>,
     ) -> Result<(Expr, HashMap<String, String>), Error> {
+        #[cfg(cc6502_verif)] crate::verif_hooks::tick("compile.parse_expr");
         let literal_counter = Rc::new(Mutex::new(self.literal_counter));
         let literal_strings = Rc::new(Mutex::new(HashMap::<String, String>::new()));
         if pairs.len() == 0 {
@@ -577,6 +578,7 @@ impl<'a> CompilerState<'a> {
         &self,
         pairs: Pairs<'a, Rule>,
     ) -> Result<(Expr, HashMap<String, String>), Error> {
+        #[cfg(cc6502_verif)] crate::verif_hooks::tick("compile.parse_expr_init");
         let literal_counter = Rc::new(Mutex::new(self.literal_counter));
         let literal_strings = Rc::new(Mutex::new(HashMap::<String, String>::new()));
         let res = self
@@ -696,6 +698,7 @@ impl<'a> CompilerState<'a> {
     }
 
     fn compile_statement(&mut self, p: Pair<'a, Rule>) -> Result<StatementLoc<'a>, Error> {
+        #[cfg(cc6502_verif)] crate::verif_hooks::tick("compile.statement");
         let mut inner = p.into_inner();
         let pair = inner.next().unwrap();
         //debug!("Compile statement: {:?}\ninner:{:?}", pair, inner);
@@ -993,6 +996,7 @@ impl<'a> CompilerState<'a> {
     }
 
     fn parse_calc(&self, pairs: Pairs<'a, Rule>) -> Result<i32, Error> {
+        #[cfg(cc6502_verif)] crate::verif_hooks::tick("compile.parse_calc");
         self.calculator
             .map_primary(|primary| -> Result<i32, Error> {
                 match primary.as_rule() {
@@ -2166,6 +2170,7 @@ impl<'a> CompilerState<'a> {
 
     fn compile_decl(&mut self, pairs: Pairs<'a, Rule>) -> Result<(), Error> {
         for pair in pairs {
+            #[cfg(cc6502_verif)] crate::verif_hooks::tick("compile.decl");
             match pair.as_rule() {
                 Rule::enclosed_decl => {
                     let mut px = pair.into_inner();
